@@ -385,6 +385,33 @@ def _time(ctx, repo, tm):
                    "timestamp encoded as 4 big-endian unsigned octets",
                    f"timestamp is not encoded as 4 big-endian unsigned octets ({w})", key="width")
         ts = val[2][0]
+        # a range guard on the timestamp may refuse only what does not fit in 32 bits: the accepted set, read off the comparisons
+        # between the timestamp and constants recorded on this (accepting) path, must contain [0, 2**32 - 1]
+        lo, hi = None, None          # accepted: lo <= ts <= hi
+        for c, tv in p_.conds:
+            if not (isinstance(c, tuple) and c[0] == "cmp" and c[1] in ("Lt", "LtE", "Gt", "GtE")):
+                continue
+            a_, b_ = c[2], c[3]
+            op = c[1]
+            if b_ == ts and sym.is_int(a_):
+                a_, b_ = b_, a_
+                op = {"Lt": "Gt", "LtE": "GtE", "Gt": "Lt", "GtE": "LtE"}[op]
+            if a_ != ts or not sym.is_int(b_):
+                continue
+            if not tv:
+                op = {"Lt": "GtE", "LtE": "Gt", "Gt": "LtE", "GtE": "Lt"}[op]
+            if op == "Lt":
+                hi = b_ - 1 if hi is None else min(hi, b_ - 1)
+            elif op == "LtE":
+                hi = b_ if hi is None else min(hi, b_)
+            elif op == "Gt":
+                lo = b_ + 1 if lo is None else max(lo, b_ + 1)
+            elif op == "GtE":
+                lo = b_ if lo is None else max(lo, b_)
+        ok_rng = (lo is None or lo <= 0) and (hi is None or hi >= 2 ** 32 - 1)
+        ctx.decide(ok_rng, "R-INTERVAL/time-range", construct, tt.where(fn), "every instant that fits in 32 bits is accepted",
+                   f"the range check in front of the 4-octet packer accepts only [{lo}, {hi}]: instants of the representable range "
+                   f"[0, {2 ** 32 - 1}] seconds since 1900 (up to 2036-02-07 06:28:15) are refused", key="range", nontrivial=False)
         # find the difference term: (data - <epoch ctor>)
         diffs = set()
 
